@@ -563,6 +563,8 @@ func ProjectStruct(x any) Node {
 		return Node{"t": "leaf", "ty": "int", "v": Tokenize(strconv.Itoa(tv))}
 	case bool:
 		return Node{"t": "leaf", "ty": "bool", "v": Tokenize(strconv.FormatBool(tv))}
+	case float32:
+		return Node{"t": "leaf", "ty": "f32", "v": Tokenize(strconv.FormatFloat(float64(tv), 'g', -1, 32))}
 	case []any:
 		return ProjectU(tv)
 	}
